@@ -145,15 +145,17 @@ type rOpts struct {
 }
 
 type rEval struct {
-	prog    *c01Prog
-	opts    rOpts
-	global  *rScope
-	steps   int
-	choices []int // pre-decided choice sequence
-	arity   []int // arity observed at each choice point of this run
-	pos     int
-	mutated bool // some array/object was updated in place (aliasing model matters)
-	fnDepth int
+	prog     *c01Prog
+	opts     rOpts
+	global   *rScope
+	steps    int
+	choices  []int // pre-decided choice sequence
+	arity    []int // arity observed at each choice point of this run
+	pos      int
+	mutated  bool // some array/object was updated in place (aliasing model matters)
+	fnDepth  int
+	modModel int // reading of `$` on a module-level name (see stmt, "decl")
+	modSet   bool
 }
 
 const rMaxSteps = 60000
@@ -1031,7 +1033,26 @@ func (ev *rEval) stmt(s *c01N, sc *rScope) {
 		sl, owner := sc.lookup(s.S)
 		if sl != nil {
 			if owner == ev.global {
-				unspec("$ on the name of a module-level function or constant")
+				// `$` on a name that resolves to the module scope (function, constant):
+				// the documents do not say which of three things happens, so all three
+				// are enumerated — it declares a local in the current block that
+				// shadows the module-level name, it updates the module-level binding
+				// (for the rest of this evaluation), or it is refused.  Once a local
+				// shadows the name, `$` on it from a nested block is the ordinary rule
+				// (the name resolves to that local: update it).
+				// (one reading per evaluation, chosen at the first such statement)
+				if !ev.modSet {
+					ev.modModel, ev.modSet = ev.choose(3), true
+				}
+				switch ev.modModel {
+				case 0:
+					sc.vars[s.S] = &rSlot{v: v}
+				case 1:
+					sl.v = v
+				default:
+					rerr("$ on the name of a module-level function or constant")
+				}
+				return
 			}
 			if sl.kind == 2 {
 				unspec("$ on an implicit request variable")
